@@ -427,6 +427,27 @@ def sequentialFirstFailure (env : Env) (seals : List Bool) : Chain → List Head
     | some e => some (i, e)
     | none => sequentialFirstFailure env seals (chain.insert h) rest (i + 1)
 
+/-- the pre-check of `(*HeaderChain).ValidateHeaderChain` (and of `insertChain` for blocks): "the provided chain is actually
+    ordered and linked" — `chain[i].Number.Uint64() == chain[i-1].Number.Uint64()+1 && chain[i].ParentHash == chain[i-1].Hash()`. -/
+def linked : List Header → Bool
+  | a :: b :: rest => decide (b.number % two64 = (a.number % two64 + 1) % two64) && decide (b.parentHash = a.hash) && linked (b :: rest)
+  | _ => true
+
+/-- outcome of a header-batch import. -/
+inductive ImportResult where
+  | accepted
+  | nonContiguous                       -- "non contiguous insert": nothing is verified, nothing is written
+  | rejected (index : Nat) (e : VErr)   -- first failing header; nothing is written
+  deriving Repr, DecidableEq
+
+/-- `(*HeaderChain).ValidateHeaderChain`: the linkage pre-check, then `engine.VerifyHeaders` and the first failure of the
+    result channel (as a function of the completion order of the workers). -/
+def validateHeaderChain (env : Env) (chain : Chain) (hs : List Header) (seals : List Bool) (completion : List Nat) : ImportResult :=
+  if !linked hs then .nonContiguous
+  else match firstFailure (verifyHeadersBatch env chain hs seals completion) with
+    | none => .accepted
+    | some (i, e) => .rejected i e
+
 /-! ## VerifyUncles -/
 
 /-- mainnet history: duplicate-uncle exemptions `(block hash, uncle number)` for blocks with `number ≤ 15000`. -/
